@@ -193,6 +193,10 @@ class kFlowDecomp(pathmodel.AbstractPathModelDAG):
         self.solve_statistics = {}
         self.optimization_options = optimization_options.copy() or {}
 
+        # The greedy shortcut looks the constraint edges up in the graph: validate them first (the parent constructor runs later)
+        if self.subpath_constraints is not None:
+            self._check_valid_subpath_constraints()
+
         greedy_solution_paths = None
         self.optimize_with_greedy = self.optimization_options.get("optimize_with_greedy", kFlowDecomp.optimize_with_greedy)
         self.optimize_with_flow_safe_paths = self.optimization_options.get("optimize_with_flow_safe_paths", kFlowDecomp.optimize_with_flow_safe_paths)
